@@ -1322,6 +1322,37 @@ func TestProp(t *testing.T) {
 		s.Report(t, fail)
 	})
 
+	// ---------------------------------------------------------------- lazy
+	lazyRule := "a body the VM compiles at first use — installed by the host as a function (NewFunctionValRaw), a computed value (NewComputedVal) or handed out afresh at every load by GlobalValueLoadFunc — used by a program under OpCountLimit 60/200/1000/30000: counted loop before the first use, use inside an endless or counted loop, a body that loops itself, and a body of 4096±3 (or any up to 6000) sum terms around the 8192-instruction capacity evaluated 2..3 times on the same VM; budget oracles (a)-(d) on every evaluation, closed-form value or an error for each evaluation; non-trivial = the budget stopped the run or the body crossed the capacity; distinct by (family, how, n, m, runs, configuration)"
+	run.Check("lazy", 1600, 24000, lazyRule, func(t *rapid.T, s *rt.Section) {
+		c := drawLazyCase(t)
+		s.Eval()
+		s.Class("lazy:" + c.Fam)
+		s.Class("how:" + c.How)
+		s.Crumb(c)
+		fail := checkLazy(c, s)
+		if fail == nil {
+			o := lastOutcome
+			h := rt.Hash(fmt.Sprint(c))
+			switch {
+			case o.err != nil && isBudgetErr(o.err):
+				s.Class("rejected:budget")
+				s.NonTrivial(h)
+			case o.err != nil:
+				s.Class("rejected:other")
+				if c.Fam == "big-body" || c.Fam == "big-body-after-small" {
+					s.NonTrivial(h)
+				}
+			default:
+				s.Class("completed")
+			}
+			if c.N < 50 {
+				s.Sample(h, c)
+			}
+		}
+		s.Report(t, fail)
+	})
+
 	// ---------------------------------------------------------------- parse
 	parseRule := "a source (generated program with optional broken-off tail, closed-form family member, hostile template) evaluated with ParseExprLimit 0 and then under an ascending list of 2..5 limits drawn from {1..200, 500, 5000, 2·10^4..2·10^6, 10^7} on fresh VMs of the same seed: under a limit the outcome is an error or exactly the unlimited outcome (result, variables, Matched, RestInput), never a panic, and once accepted it stays accepted under every larger limit; non-trivial = some limit rejected a source that the unlimited parser accepts; distinct by (source, limits, configuration)"
 	run.Check("parse", 1200, 40000, parseRule, func(t *rapid.T, s *rt.Section) {
@@ -1465,5 +1496,12 @@ func TestReplay(t *testing.T) {
 		"pad":      dec(checkPad),
 		"budget":   dec(checkBudget),
 		"parse":    dec(checkParse),
+		"lazy": func(b []byte, s *rt.Section) *rt.Failure {
+			var c LazyCase
+			if err := json.Unmarshal(b, &c); err != nil {
+				return s.NewFailure("replay", "replay:bad-case", nil, err.Error(), "")
+			}
+			return checkLazy(c, s)
+		},
 	})
 }
